@@ -251,6 +251,7 @@ static void dump_case(const Case &cs)
 // ------------------------------------------------------------------------------------------------ property
 static void prop(vf::Tape &t, vf::Ctx &c)
 {
+    mint::reseed(0xC03);
     Gen g(t);
     Case cs = g.run(C03_KIND);
     std::string err;
